@@ -405,6 +405,8 @@ def run(ctx):
         rv = st["rv"]
         if not (rv["k"] == "agg" and rv.get("ak") == "adt" and rv["adt"].endswith("option::Option") and b in rt.reachable(0)):
             continue
+        if st.get("exp") or "u16" not in rt.local_ty(st["dst"]["l"]):
+            continue                # only the `Option<u16>` ids; log macros build Options of their own
         e = rr.rvalue(rv, (b, i))
         if e[2] == "Some":
             v = A.peel(dict(e[3])["0"])
